@@ -72,6 +72,9 @@ mod png;
 mod reduction;
 #[cfg(feature = "sanity-checks")]
 mod sanity_checks;
+#[cfg(feature = "verif")]
+#[doc(hidden)]
+pub mod verif;
 
 /// Private to oxipng; don't use outside tests and benches
 #[doc(hidden)]
